@@ -146,6 +146,8 @@ package storage
 //@ func (*Engine).IterateRange$1
 //@   requires s != nil && *e != nil && (*e).Cluster != nil && (*e).Cluster.shardView != nil
 //@   ensures [C09.stream.copy] result != nil && fresh(result) && sameSlice(result.Kvs, s.Kvs) && result.More == s.More && result.Count == s.Count
+// every streamed message gets a header of its own, read from the cluster view when the message is produced (not once per stream)
+//@   ensures [C19.header.perchunk] result.Header != nil && fresh(result.Header)
 //@   modifies nothing
 
 // ---------------------------------------------------------------- compaction events reach the log cache (C06)
